@@ -4,8 +4,11 @@ import (
 	"encoding/json"
 	"errors"
 	"fmt"
+	"io"
 	"math/rand"
+	"net"
 	"strings"
+	"time"
 	"unsafe"
 
 	"github.com/cloudwego/gopkg/bufiox"
@@ -32,6 +35,9 @@ type WrCase struct {
 	FailCount int    `json:"failCount,omitempty"`
 	Shuffle   int64  `json:"shuffle"`
 	Ops       []WrOp `json:"ops"`
+	// Sink (io): "" = a plain io.Writer; "rich" = a sink whose dynamic type also is a net.Conn and offers WriteString,
+	// ReadFrom, WriteByte, Flush, Sync, Available ... (every route delivers to the same record)
+	Sink string `json:"sink,omitempty"`
 }
 
 var errSink = errors.New("verif: injected sink error")
@@ -52,6 +58,37 @@ func (s *recSink) Write(p []byte) (int, error) {
 	}
 	return len(p), nil
 }
+
+// richSink: what real sinks look like: a connection (net.Conn), a buffered stream, a file-like object.  Whatever route
+// a writer picks because the sink offers it, the bytes that arrive are recorded in arrival order by the embedded recSink.
+type richSink struct{ recSink }
+
+func (s *richSink) Read(p []byte) (int, error)         { return 0, io.EOF }
+func (s *richSink) Close() error                       { return nil }
+func (s *richSink) LocalAddr() net.Addr                { return &net.UnixAddr{Name: "verif-local", Net: "unix"} }
+func (s *richSink) RemoteAddr() net.Addr               { return &net.UnixAddr{Name: "verif-remote", Net: "unix"} }
+func (s *richSink) SetDeadline(t time.Time) error      { return nil }
+func (s *richSink) SetReadDeadline(t time.Time) error  { return nil }
+func (s *richSink) SetWriteDeadline(t time.Time) error { return nil }
+func (s *richSink) WriteString(x string) (int, error)  { return s.Write([]byte(x)) }
+func (s *richSink) WriteByte(b byte) error             { _, err := s.Write([]byte{b}); return err }
+func (s *richSink) Flush() error                       { return nil }
+func (s *richSink) Sync() error                        { return nil }
+func (s *richSink) Available() int                     { return 5 }
+func (s *richSink) Buffered() int                      { return 0 }
+func (s *richSink) Len() int                           { return 0 }
+func (s *richSink) Cap() int                           { return 64 }
+func (s *richSink) ReadFrom(r io.Reader) (int64, error) {
+	b, err := io.ReadAll(r)
+	if len(b) > 0 {
+		if n, werr := s.Write(b); werr != nil {
+			return int64(n), werr
+		}
+	}
+	return int64(len(b)), err
+}
+
+var _ net.Conn = &richSink{}
 
 func wrErrClass(err error) string {
 	switch {
@@ -141,7 +178,14 @@ func runWrCase(raw json.RawMessage, w *TraceWriter) {
 		wr = bufiox.NewBytesWriter(&target)
 	} else {
 		sink = &recSink{failAt: cs.FailAt, failCount: cs.FailCount}
-		wr = bufiox.NewDefaultWriter(sink)
+		switch cs.Sink {
+		case "rich":
+			rs := &richSink{recSink{failAt: cs.FailAt, failCount: cs.FailCount}}
+			sink = &rs.recSink
+			wr = bufiox.NewDefaultWriter(rs)
+		default:
+			wr = bufiox.NewDefaultWriter(sink)
+		}
 	}
 	st := wr.(wrStater)
 	rng := rand.New(rand.NewSource(cs.Shuffle))
@@ -305,6 +349,9 @@ func genWrCases(c *Ctx) []json.RawMessage {
 				continue
 			}
 			add(WrCase{Fl: "io", FailAt: fa, FailCount: k % 3, Shuffle: int64(k), Ops: append([]WrOp(nil), sq...)})
+			if fa < 2 && (len(sq) < 3 || k%(4*stride) == 0) { // the same history into a connection-like sink
+				add(WrCase{Fl: "io", FailAt: fa, FailCount: k % 3, Shuffle: int64(k), Sink: "rich", Ops: append([]WrOp(nil), sq...)})
+			}
 		}
 		for _, in := range inits {
 			k++
@@ -341,6 +388,9 @@ func genWrCases(c *Ctx) []json.RawMessage {
 				in.c = in.l + rng.Intn(3)*rng.Intn(5000)
 			}
 			cs.Init, cs.Cap, cs.IsNil = in.l, in.c, in.isnil
+		}
+		if cs.Fl == "io" && rng.Intn(3) == 0 {
+			cs.Sink = "rich"
 		}
 		nops := 1 + rng.Intn(c.Pick(40, 200))
 		for j := 0; j < nops; j++ {
@@ -382,7 +432,7 @@ func genWrCases(c *Ctx) []json.RawMessage {
 }
 
 func checkC05(c *Ctx) {
-	c.rule = "MC: every behaviour of WriterImpl within the cfg bounds keeps the stitching invariants (windows tile, every region in its own window, regions contiguous in order) and the C05 contract. TRACE: one case = (writer flavour, initial target shape or failing sink write k, history of Malloc/WriteBinary/Flush with eager/lazy/re-filled regions); exhaustive histories <= 3 ops over a boundary-valued alphabet (+final Flush) and seeded random histories; sink bytes are projected onto per-region pattern runs and judged by TLC against WriterAbs; hook state is judged against WriterImpl."
+	c.rule = "MC: every behaviour of WriterImpl within the cfg bounds keeps the stitching invariants (windows tile, every region in its own window, regions contiguous in order) and the C05 contract. TRACE: one case = (writer flavour, initial target shape or failing sink write k, history of Malloc/WriteBinary/Flush with eager/lazy/re-filled regions); exhaustive histories <= 3 ops over a boundary-valued alphabet (+final Flush) and seeded random histories; sink bytes are projected onto per-region pattern runs and judged by TLC against WriterAbs; hook state is judged against WriterImpl. Sinks: plain io.Writers and sinks whose dynamic type also is a net.Conn offering WriteString / ReadFrom / WriteByte / Flush / Sync / Available / Len (every route recorded in arrival order)."
 	if c.Thorough() {
 		c.MC("MC_BufWriter.tla", "MC_BufWriter_thorough.cfg", 12)
 	} else {
